@@ -126,3 +126,7 @@ pub fn in_domain<R>(domain: usize, f: impl FnOnce() -> R) -> R {
     set_domain(prev);
     r
 }
+
+pub fn reset_mismatches() {
+    MISMATCHES.with(|m| m.set(0));
+}
